@@ -8,5 +8,5 @@ git -C /repo archive HEAD | tar -x -C "$D"  # the committed tree, not the workin
 for id in "$@"; do
   OUT=$(VERIF_REPO="$D" ./check "$id" --tier ${SEED_TIER:-quick} 2>&1); RC=$?
   git checkout -- evidence/$id.json 2>/dev/null
-  echo "$(basename $(dirname $(dirname $SD)))/$(basename $SD) vs $id rc=$RC $(echo "$OUT" | grep 'key=' | head -2 | cut -c1-200 | tr '\n' ' ')"
+  echo "$(basename $(dirname $(dirname $SD)))/$(basename $SD) vs $id rc=$RC $(echo "$OUT" | grep -a 'key=' | head -2 | cut -c1-200 | tr '\n' ' ')"
 done
